@@ -50,32 +50,35 @@ type cursorQuery struct {
 	Q        *bs.Query
 	Expected map[string]bool
 
-	ctx           context.Context
-	simctx        *SimCtx
-	cancel        context.CancelFunc
-	res           *bs.Results
-	queryErr      error
-	spawnLo       int
-	spawnHi       int
-	IDs           []string
-	NextFalse     bool // Next has returned false
-	nfStep        int
-	nfInvoke      int
-	CtxErrAtNF    error // caller ctx error when the final Next was invoked
-	CtxErrAfter   error // caller ctx error right after the final Next returned
-	ClosedByMe    bool  // the consumer (or side closer) called Close before Next returned false
-	CtxErrAtClose error // caller ctx error when the first such Close was invoked
-	closeStep     int
-	Err           error
-	ErrSeen       bool
-	Stats         bs.QueryStats
-	Terminal      bool // Next returned false or Close returned: resources must be released
-	termStep      int
-	Checked       bool
-	Stalled       bool // consumer deliberately stopped consuming
-	Problems      []string
-	Unfaithful    []string         // C03: rows that differ from the JSON round trip of what was ingested
-	Rows          []map[string]any // every delivered row, re-examined at the end of the run
+	ctx             context.Context
+	simctx          *SimCtx
+	cancel          context.CancelFunc
+	res             *bs.Results
+	queryErr        error
+	spawnLo         int
+	spawnHi         int
+	IDs             []string
+	NextFalse       bool // Next has returned false
+	nfStep          int
+	nfInvoke        int
+	CtxErrAtNF      error // caller ctx error when the final Next was invoked
+	CtxErrAfter     error // caller ctx error right after the final Next returned
+	ClosedByMe      bool  // the consumer (or side closer) called Close before Next returned false
+	CtxErrAtClose   error // caller ctx error when the first such Close was invoked
+	closeStep       int
+	Err             error
+	ErrSeen         bool
+	Stats           bs.QueryStats
+	Terminal        bool // Next returned false or Close returned: resources must be released
+	termStep        int
+	Checked         bool
+	Stalled         bool // consumer deliberately stopped consuming
+	Problems        []string
+	inNext          bool             // the consumer is inside Next right now
+	nextDone        bool             // Next has returned false (Err not read yet)
+	CloseDuringNext bool             // the side closer called Close while the consumer was inside Next
+	Unfaithful      []string         // C03: rows that differ from the JSON round trip of what was ingested
+	Rows            []map[string]any // every delivered row, re-examined at the end of the run
 }
 
 func cursorQueries() []*bs.Query {
@@ -307,9 +310,13 @@ func (st *cursorState) client(name string, qs []*cursorQuery) {
 		if sp.SideClose == 1 {
 			simrt.GoNamed("closer-"+cq.Tag, func() {
 				simrt.Gate("op", "side-close "+cq.Tag, nil)
-				if !cq.NextFalse {
+				if !cq.NextFalse && !cq.nextDone {
 					if !cq.ClosedByMe {
 						cq.CtxErrAtClose = cq.ctx.Err()
+						// A Next of the consumer that is in flight may already have decided the
+						// terminal state (clean completion observed, not yet recorded): then
+						// "cancelled before Close" does not imply "cancelled before completion".
+						cq.CloseDuringNext = cq.inNext
 					}
 					cq.ClosedByMe = true
 				}
@@ -386,7 +393,11 @@ func (st *cursorState) consume(cq *cursorQuery) {
 		}
 		cq.CtxErrAtNF = cq.ctx.Err()
 		cq.nfInvoke = r.Step
-		if !res.Next() {
+		cq.inNext = true
+		more := res.Next()
+		cq.inNext = false
+		if !more {
+			cq.nextDone = true // the terminal state is decided from here on, whatever Close does later
 			break
 		}
 		row := res.Row()
@@ -868,7 +879,7 @@ func (st *cursorState) evaluate() {
 		}
 		// A Close that follows the caller's cancellation must not hide it: the query was canceled
 		// before any terminal state had been decided.
-		if cq.ClosedByMe && cq.CtxErrAtClose != nil && !errors.Is(cq.Err, cq.CtxErrAtClose) {
+		if cq.ClosedByMe && cq.CtxErrAtClose != nil && !cq.CloseDuringNext && !errors.Is(cq.Err, cq.CtxErrAtClose) {
 			r.Violate("C20", "close-hides-cancellation", "query %s: the caller's context was already cancelled (%v) when Close was called, no terminal state had been decided, yet Err() = %v does not wrap the context error", cq.Tag, cq.CtxErrAtClose, cq.Err)
 		}
 		// C23 / C24 on this query's stats and attributed store calls.
